@@ -3,6 +3,6 @@ CONSTANTS
   Classes = {"accept", "imm", "multi"}
   MaxTrig = 3
   MaxPoll = 3
-  FixDrvDrop = FALSE
+  FixDrvDrop = TRUE
 SPECIFICATION GSpec
 INVARIANTS Emit
